@@ -40,6 +40,7 @@ __attribute__((used, visibility("default"))) const char* __tsan_default_options(
 }
 
 extern "C" {
+int __llvm_profile_write_file(void) __attribute__((weak)); // coverage builds only (tools/coverage.sh)
 void AnnotateIgnoreReadsBegin(const char* f, int l) __attribute__((weak));
 void AnnotateIgnoreReadsEnd(const char* f, int l) __attribute__((weak));
 void AnnotateIgnoreWritesBegin(const char* f, int l) __attribute__((weak));
@@ -726,6 +727,7 @@ static Outcome eval_forked(const TapeSpec& spec, bool verbose, double timeout_s 
       off += n;
     }
     close(fds[1]);
+    if (__llvm_profile_write_file) __llvm_profile_write_file();
     _exit(0);
   }
   close(fds[1]);
@@ -1294,6 +1296,7 @@ int driver_main(int argc, char** argv, const Engine& e) {
           }
         }
       }
+      if (__llvm_profile_write_file) __llvm_profile_write_file();
       _exit(0);
     }
     pids[k] = pid;
